@@ -15,6 +15,9 @@ mod minimize;
 mod monitor;
 mod refflac;
 mod rng;
+mod genmeta;
+mod scen_c13;
+mod scen_c14;
 mod scen_c17;
 mod scen_rt;
 mod world;
@@ -33,6 +36,8 @@ pub type Scenario = fn(&mut Ctx) -> R;
 pub fn lookup(scen: &str) -> Option<Scenario> {
     Some(match scen {
         "rt" => scen_rt::run,
+        "c13" => scen_c13::run,
+        "c14" => scen_c14::run,
         _ => return None,
     })
 }
@@ -89,7 +94,7 @@ pub fn execute(prop: &str, scen: Scenario, tier: Tier, ch: Choices, trace: bool,
         evals: std::mem::take(&mut ctx.evals),
         sample: ctx.sample.take(),
         trace: ctx.disk.take_trace(),
-        events: ctx.disk.seq(),
+        events: ctx.disk.seq() + ctx.extra_events,
         foreign: ctx.foreign.take(),
         labelled: if trace { ch.labelled() } else { Vec::new() },
     }
